@@ -515,9 +515,9 @@ JOBS = {
                           env={"GRAPH": "art:g_kb2_bits", "ALPHA": "alpha:g_kb2_bits", "COMP": "kb2", "FGRAPH": "art:g_frame", "SGRAPH": "art:g_set2", "EGRAPH": "art:g_event", "WORDS": "art:t_words"}),
     "conf_kb1_bits": dict(kind="tlc", module="Conf_Keyboard", cfg="Conf_Keyboard.cfg", workers=8, heap="8g",
                           env={"GRAPH": "art:g_kb1_bits", "ALPHA": "alpha:g_kb1_bits", "COMP": "kb1", "FGRAPH": "art:g_frame", "SGRAPH": "art:g_set1", "EGRAPH": "art:g_event", "WORDS": "art:t_words"}),
-    "conf_kb2_mixedq": dict(kind="tlc", module="Conf_Keyboard", cfg="Conf_Keyboard.cfg", workers=8, heap="12g",
+    "conf_kb2_mixedq": dict(kind="tlc", module="Conf_Keyboard", cfg="Conf_Keyboard.cfg", workers=8, heap="12g", timeout=2400,
                             env={"GRAPH": "art:g_kb2_mixedq", "ALPHA": "alpha:g_kb2_mixedq", "COMP": "kb2", "FGRAPH": "art:g_frame", "SGRAPH": "art:g_set2", "EGRAPH": "art:g_event", "WORDS": "art:t_words"}),
-    "conf_kb1_mixedq": dict(kind="tlc", module="Conf_Keyboard", cfg="Conf_Keyboard.cfg", workers=8, heap="12g",
+    "conf_kb1_mixedq": dict(kind="tlc", module="Conf_Keyboard", cfg="Conf_Keyboard.cfg", workers=8, heap="12g", timeout=2400,
                             env={"GRAPH": "art:g_kb1_mixedq", "ALPHA": "alpha:g_kb1_mixedq", "COMP": "kb1", "FGRAPH": "art:g_frame", "SGRAPH": "art:g_set1", "EGRAPH": "art:g_event", "WORDS": "art:t_words"}),
     # the whole event alphabet through Keyboard::process_keyevent against the real EventDecoder automaton
     "conf_kb2_events_wiring": dict(kind="tlc", module="Conf_Keyboard", cfg="Conf_Keyboard.cfg", workers=8, heap="8g",
